@@ -40,12 +40,71 @@ def show_t(sub: int) -> str:
 
 
 class Log:
+    """canonical lines; `marks[i]` = value of `probe()` when line i was written (the runners set `probe` to the number of
+    bytes the server has taken out of the transport so far: what the oracle needs to know which requests were already
+    sitting in the consumer's buffer when a TimeoutError reached the handler)"""
+
     def __init__(self) -> None:
         self.lines: list[str] = []
+        self.marks: list[int] = []
+        self.probe = None
 
     def __call__(self, s: str) -> None:
         t = tick_of(asyncio.get_running_loop().time())
         self.lines.append(f"{s} {show_t(t)}")
+        self.marks.append(self.probe() if self.probe is not None else -1)
+
+
+AFTER_CLOSE = ("ebadf", "reset", "aborted", "data", "eof")
+
+
+class SessionTransport(env.MemTransport):
+    """MemTransport whose READS AFTER A LOCAL CLOSE behave as the case says (`after_close`):
+         "ebadf"   OSError(EBADF)                      (MemTransport's own behaviour)
+         "reset"   ConnectionResetError                (the asyncio socket adapter when the close dropped unread data)
+         "aborted" ConnectionAbortedError              (the asyncio socket adapter otherwise)
+         "data"    goes on handing out what the peer had sent (a transport with its own read buffer)
+         "eof"     b"" / 0
+    A server that never touches a transport the handler has closed cannot tell them apart.  `nread` = bytes handed out."""
+
+    def __init__(self, *args: Any, after_close: str = "ebadf", **kwargs: Any) -> None:
+        super().__init__(*args, **kwargs)
+        assert after_close in AFTER_CLOSE, after_close
+        self.after_close = after_close
+        self.nread = 0
+
+    def _consume(self, n: int) -> None:
+        super()._consume(n)
+        self.nread += n
+
+    async def _wait_readable(self) -> bytes | None:
+        mode = self.after_close
+        if not self.closing or mode == "ebadf":
+            return await super()._wait_readable()
+        import errno
+
+        self.recv_while_closed += 1
+        if mode == "reset":
+            raise ConnectionResetError(errno.ECONNRESET, "Connection reset by peer")
+        if mode == "aborted":
+            raise ConnectionAbortedError(errno.ECONNABORTED, "Software caused connection abort")
+        if mode == "eof":
+            await asyncio.sleep(0)
+            return None
+        # "data": as MemTransport._wait_readable, without the closing test
+        loop = asyncio.get_running_loop()
+        if self.pos < len(self.incoming):
+            t, data = self.incoming[self.pos]
+            await asyncio.sleep(max(t - loop.time(), 0))
+            return data[self.off:]
+        await asyncio.sleep(max(self.end_time - loop.time(), 0))
+        return None
+
+    async def _at_end(self):
+        if self.closing and self.after_close == "eof":
+            self.recv_log.append((asyncio.get_running_loop().time(), 0))
+            return
+        return await super()._at_end()
 
 
 def exc_kind(e: BaseException) -> str:
@@ -111,6 +170,10 @@ class Script:
             for st in steps:
                 if st.get("sleep"):
                     await asyncio.sleep(float(st["sleep"]))
+                if st.get("pre_close"):
+                    # the handler closes the client BEFORE asking for this request (step 0: in the preamble of the generator)
+                    await client.aclose()
+                    log(f"closed-by-handler {name}")
                 to = st.get("timeout")
                 try:
                     req = yield (None if to is None else to * TICK)
@@ -197,7 +260,8 @@ def run_session(case: dict) -> tuple[list[str], dict]:
     log = Log()
     script = Script(case, log)
     incoming, t_end, chunks = build_incoming(case)
-    tr = env.MemTransport(incoming, case.get("end", "eof"), t_end)
+    tr = SessionTransport(incoming, case.get("end", "eof"), t_end, after_close=case.get("after_close", "ebadf"))
+    log.probe = lambda: tr.nread
     proto = sd.make_protocol(case["spec"], case["path"], bool(case.get("conv")))
     listener = env.MemListener([tr])
     layer = case.get("layer", "low")
@@ -244,4 +308,5 @@ def run_session(case: dict) -> tuple[list[str], dict]:
     aux["gens_started"] = script.gens_started
     aux["recv_log"] = tr.recv_log
     aux["recv_while_closed"] = tr.recv_while_closed
+    aux["read_marks"] = list(log.marks)
     return lines, aux
